@@ -45,6 +45,79 @@ func runC05(p *load.Program, r *core.Report) {
 	c05Reasons(a, r)
 	c05ExitArms(a, r)
 	c05Panic(a, r)
+	c05Recheck(a, r)
+}
+
+// c05Recheck: T6 — between two handler callbacks of one runner the state word is consulted, so a
+// process/meta process that was terminated or killed meanwhile handles nothing further.
+func c05Recheck(a *Anchors, r *core.Report) {
+	rule := "C05.T6 state-recheck-between-callbacks"
+	r.Floor(rule, 5)
+	procB := ifaceOf(a.P, "gen", "ProcessBehavior")
+	type target struct {
+		f       *ssa.Function
+		handler func(ssa.Instruction) bool
+		check   func(ssa.Instruction) bool
+		what    string
+	}
+	var ts []target
+	// meta handler: callbacks of MetaBehavior; check = any read-modify-write or load of the meta state word
+	if a.MetaLoop != nil {
+		mc := metaClassify(a)
+		ws := metaWordSpec(a)
+		opsAt := map[ssa.Instruction]bool{}
+		for _, op := range stateOps(a.P, ws.owner, ws.field) {
+			if op.Kind == "load" || op.Kind == "cas" {
+				opsAt[op.In] = true
+			}
+		}
+		ts = append(ts, target{a.MetaLoop, func(in ssa.Instruction) bool { cb := mc(in); return cb != nil && cb.kind == "run" }, func(in ssa.Instruction) bool { return opsAt[in] }, "meta handler"})
+	}
+	// behaviour loops: handler = invoke on the behaviour interface (a field of the receiver) whose name starts with Handle; check = call of State()
+	for _, f := range funcsOfPkgs(a.P, "act") {
+		if f.Parent() != nil || f.Name() != "ProcessRun" || f.Signature.Recv() == nil || !types.Implements(f.Signature.Recv().Type(), procB) {
+			continue
+		}
+		ts = append(ts, target{f, func(in ssa.Instruction) bool {
+			cc := callCommon(in)
+			return cc != nil && cc.IsInvoke() && strings.HasPrefix(cc.Method.Name(), "Handle") && cc.Method.Name() != "HandleLog"
+		}, func(in ssa.Instruction) bool {
+			cc := callCommon(in)
+			if cc == nil {
+				return false
+			}
+			if cc.IsInvoke() {
+				return cc.Method.Name() == "State"
+			}
+			sf := staticCallee(cc)
+			return sf != nil && sf.Name() == "State"
+		}, "behaviour loop"})
+	}
+	for _, t := range ts {
+		fn := fname(t.f)
+		key := "C05.T6|" + fn
+		inst := t.what + ": after a handler callback no further handler callback is reachable without consulting the state word"
+		var bad []string
+		n := 0
+		eachInstr(t.f, func(in ssa.Instruction) {
+			if !t.handler(in) {
+				return
+			}
+			n++
+			if h := reaches([]Point{after(in)}, t.check, t.handler); h != nil {
+				bad = append(bad, a.P.Pos(in.Pos())+" -> "+a.P.Pos(h.Pos()))
+			}
+		})
+		if n == 0 {
+			r.Unk(rule, key, fn, a.P.Pos(t.f.Pos()), inst, "no handler callbacks found")
+			continue
+		}
+		if len(bad) > 0 {
+			r.Bad(rule, key, fn, a.P.Pos(t.f.Pos()), inst, "handler-to-handler path without a state check: "+strings.Join(uniq(bad), "; ")+" — queued messages are still handled after the process was terminated or killed")
+		} else {
+			r.OK(rule, key, fn, a.P.Pos(t.f.Pos()), inst, fmt.Sprintf("%d handler call sites", n))
+		}
+	}
 }
 
 // origin classifies where an error value comes from.
